@@ -80,6 +80,7 @@ type builder struct {
 	realRoot string // "" when the root does not resolve
 	rootAbs  string // fs modes: absolute named root
 
+	cmd     string  // cli: which command runs the case ("", "repl", "debug")
 	history bool    // histories: mutations between the loads
 	flipped []*Node // files whose inside/outside status the last mutation changed
 }
@@ -670,7 +671,7 @@ func (b *builder) buildLoads() {
 	// call expression is WRITTEN in, not the file (of another directory) that
 	// calls the function
 	for _, n := range b.nodes {
-		if n.Kind != "file" || !b.pct("hasdefs", 30) {
+		if n.Kind != "file" || !b.pct("hasdefs", 35) {
 			continue
 		}
 		k := rapid.SampledFrom([]int{1, 1, 1, 2}).Draw(b.t, "ndefs")
@@ -679,7 +680,7 @@ func (b *builder) buildLoads() {
 		}
 	}
 	for _, n := range b.nodes {
-		if n.Kind != "file" || !b.pct("hascalls", 30) {
+		if n.Kind != "file" || !b.pct("hascalls", 35) {
 			continue
 		}
 		fn, d := b.pickFunction(parentOf(b.m.abs(n)), b.fileIndex(n))
@@ -703,8 +704,12 @@ func (b *builder) buildLoads() {
 // to keep load graphs mostly acyclic, a definer after position minIdx.
 func (b *builder) pickFunction(fromDir string, minIdx int) (string, *Node) {
 	var other, later, any []*Node
+	insideOnly := b.pct("fninside", 85) // a definer the root lets the runtime load
 	for _, d := range b.nodes {
 		if d.Kind != "file" || len(d.Defs) == 0 {
+			continue
+		}
+		if insideOnly && !(b.realRoot != "" && inside(b.realRoot, b.m.abs(d))) {
 			continue
 		}
 		any = append(any, d)
@@ -871,7 +876,11 @@ func (b *builder) loadOps(n int) []Op {
 				}
 			}
 			op := Op{Entry: "expr"}
-			if files < 2 && b.pct("clifile", 25) {
+			filePct, maxFiles := 25, 2
+			if b.cmd == "debug" {
+				filePct, maxFiles = 55, 3 // only file arguments reach cmd/debug.go
+			}
+			if files < maxFiles && b.pct("clifile", filePct) {
 				op.Entry = "file"
 				files++
 			}
@@ -882,7 +891,7 @@ func (b *builder) loadOps(n int) []Op {
 	}
 	for i := 0; i < n; i++ {
 		var op Op
-		switch k := rapid.IntRange(0, 21).Draw(b.t, "entry"); {
+		switch k := rapid.IntRange(0, 22).Draw(b.t, "entry"); {
 		case k < 9:
 			op.Entry = "lib"
 		case k < 12:
@@ -1047,8 +1056,15 @@ func (b *builder) genMutation() (Op, bool) {
 		}
 		return out
 	}
+	rv := rootVia()
 	for try := 0; try < 4; try++ {
-		switch k := rapid.IntRange(0, 99).Draw(b.t, "mutkind"); {
+		k := rapid.IntRange(0, 99).Draw(b.t, "mutkind")
+		if len(rv) > 0 && b.pct("mut-rootlink", 40) {
+			k = 30 // the root is (behind) a symbolic link: retarget it
+		} else if b.mode == "rfs" && !isAbs(subst(b.root, genBase)) && b.pct("mut-relroot", 40) {
+			k = 55 // the root is relative: change the working directory
+		}
+		switch {
 		case k < 30:
 			return Op{Entry: "setroot", Arg: rapid.SampledFrom(b.rootCandidates()).Draw(b.t, "newroot")}, true
 		case k < 55:
@@ -1056,7 +1072,7 @@ func (b *builder) genMutation() (Op, bool) {
 				continue
 			}
 			pool := links
-			if rv := rootVia(); len(rv) > 0 && b.pct("retarget-root", 70) {
+			if len(rv) > 0 && b.pct("retarget-root", 70) {
 				pool = rv
 			}
 			n := rapid.SampledFrom(pool).Draw(b.t, "retargetlink")
@@ -1150,13 +1166,14 @@ func genCaseH(mode string, history bool) *rapid.Generator[Case] {
 		for _, n := range b.nodes {
 			c.SB.Nodes = append(c.SB.Nodes, *n)
 		}
+		if mode == "cli" {
+			b.cmd = rapid.SampledFrom([]string{"", "", "repl", "debug"}).Draw(t, "clicmd")
+			c.Cmd = b.cmd
+		}
 		if history {
 			c.Ops = b.buildHistory()
 		} else {
 			c.Ops = b.buildOps()
-		}
-		if mode == "cli" {
-			c.Cmd = rapid.SampledFrom([]string{"", "", "repl", "debug"}).Draw(t, "clicmd")
 		}
 		return c
 	})
